@@ -106,8 +106,9 @@ Proof.
       (apply G_sep; [apply G_topnd; (eapply IHl; [ | eassumption]; first [exact Hq | reflexivity | rewrite sq_opc; exact Hq])
                     | apply cmp_ssafe
                     | apply G_topnd; (eapply IHr; [ | eassumption]; first [exact Hq | reflexivity | rewrite sq_opc; exact Hq])]).
-  - (* TCplx *) intros bo l IHl r IHr alias c ts Hq H. cbn [toks] in H. inv_bind H. inversion H; subst.
-    apply G_tparen. apply G_sep; [(eapply IHl; [ | eassumption]; first [exact Hq | reflexivity | rewrite sq_opc; exact Hq]) | reflexivity | (eapply IHr; [ | eassumption]; first [exact Hq | reflexivity | rewrite sq_opc; exact Hq])].
+  - (* TCplx *) intros bo l IHl r IHr alias c ts Hq H. cbn [toks] in H. inv_bind H.
+    destruct (wa c); inversion H; subst; try apply G_alias;
+      (apply G_tparen; apply G_sep; [(eapply IHl; [ | eassumption]; first [exact Hq | reflexivity | rewrite sq_opc; exact Hq]) | reflexivity | (eapply IHr; [ | eassumption]; first [exact Hq | reflexivity | rewrite sq_opc; exact Hq])]).
   - (* TIn *) intros t IHt cont IHc negated alias c ts Hq H. cbn [toks] in H. inv_bind H. inversion H; subst.
     apply G_alias. apply G_sep; [apply G_topnd; (eapply IHt; [ | eassumption]; first [exact Hq | reflexivity | rewrite sq_opc; exact Hq]) | reflexivity | (eapply IHc; [ | eassumption]; first [exact Hq | reflexivity | rewrite sq_opc; exact Hq])].
   - (* TBetween *) intros t IHt lo IHlo hi IHhi alias c ts Hq H. cbn [toks] in H. inv_bind H. inversion H; subst.
